@@ -218,7 +218,11 @@ def run_property(args):
             bad = []
             for cid in cids:
                 c = REGISTRY[cid]
-                if c.kind == "bounded" or c.native_modules:
+                # only plain value contracts are meaningful to cross-check: the
+                # others run against callee models, ghost recorders, loop cuts or
+                # custom entries, which differ from a native run by design
+                if (c.kind == "bounded" or c.native_modules or c.callees or c.loops or c.entry is not None
+                        or c.native_entry is not None or c.setup is not None or c.outer_inputs is not None):
                     continue
                 try:
                     n, b, _sk = crosscheck_contract(c, n=30, seed=seed)
